@@ -15,7 +15,7 @@ TOL = 1e-11
 TOLERANCES = {"solve on the edited variable vs the same solve on a fresh variable (full arrays)": TOL,
               "visible state after non-solve operations": "bitwise", "clean variable: ghost layer vs reference": 1e-12,
               "clean variable: cached boundary term vs freshly built": "bitwise"}
-RULE = ("Histories over the alphabet {assign / slice-assign a,b,c; fixedValue; fixedGradient(+-scale); newtonCooling(+-reverse); "
+RULE = ("Histories over the alphabet {assign / slice-assign / augmented-assign (*=, +=) a,b,c; fixedValue; fixedGradient(+-scale); newtonCooling(+-reverse); "
         "defaultNoFlux; toggle periodic (non-radial axes); value = ...; value[idx] = ...; update_value(other); copy(); arithmetic "
         "producing a new variable; a second variable on an existing BC object; apply_BCs(); solvePDE (terms from coefficient "
         "fields); solveExplicitPDE (its result joins the pool and may be fed to solvePDE)} on a generated mesh (9 classes, N 1..3 / "
@@ -177,7 +177,7 @@ class Interp:
         vi = self._v(op)
         var = self.vars[vi]
         mv = self.mv[vi]
-        if k in ('bc_set', 'bc_slice', 'fixedValue', 'fixedGradient', 'newtonCooling', 'defaultNoFlux', 'periodic'):
+        if k in ('bc_set', 'bc_slice', 'bc_aug', 'fixedValue', 'fixedGradient', 'newtonCooling', 'defaultNoFlux', 'periodic'):
             f = self._face(op)
             if k == 'periodic':
                 ax = self.fnames.index(f) // 2
@@ -190,6 +190,17 @@ class Interp:
                 val = op['val']
                 setattr(rf, op['coef'], val)
                 mf[op['coef']][...] = val
+            elif k == 'bc_aug':
+                # augmented assignment on the attribute:  face.c *= v   /   face.a += v
+                # (python evaluates it as: tmp = face.c; tmp *= v [in place]; face.c = tmp)
+                tmp = getattr(rf, op['coef'])
+                if op['how'] == 'mul':
+                    tmp *= op['val']
+                    mf[op['coef']] *= op['val']
+                else:
+                    tmp += op['val']
+                    mf[op['coef']] += op['val']
+                setattr(rf, op['coef'], tmp)
             elif k == 'bc_slice':
                 arr = getattr(rf, op['coef'])
                 idx = np.unravel_index(op['idx'] % arr.size, arr.shape)
@@ -464,6 +475,8 @@ def op_strategy():
     return st.one_of(
         st.fixed_dictionaries(dict(op=st.just('bc_set'), v=v, face=face, coef=st.sampled_from(['a', 'b', 'c']), val=st.sampled_from([0.0, 1.0, 0.5, 2.0, -1.0]))),
         st.fixed_dictionaries(dict(op=st.just('bc_slice'), v=v, face=face, coef=st.sampled_from(['a', 'b', 'c']), idx=st.integers(0, 8), val=st.sampled_from([0.25, 1.0, 1.5, -0.5]))),
+        st.fixed_dictionaries(dict(op=st.just('bc_aug'), v=v, face=face, coef=st.sampled_from(['a', 'b', 'c']), how=st.sampled_from(['mul', 'add']),
+                                   val=st.sampled_from([2.0, 0.5, -1.0, 1.5]))),
         st.fixed_dictionaries(dict(op=st.just('fixedValue'), v=v, face=face, val=val)),
         st.fixed_dictionaries(dict(op=st.just('fixedGradient'), v=v, face=face, val=val, scale=st.sampled_from([1.0, -1.0, 3.0]))),
         st.fixed_dictionaries(dict(op=st.just('newtonCooling'), v=v, face=face, k=st.sampled_from([1.0, 0.37]), h=st.sampled_from([0.9, 2.3]),
@@ -545,6 +558,8 @@ def single_edit_probes():
             for coef in 'abc':
                 edits.append(dict(op='bc_set', v=0, face=f, coef=coef, val=0.5))
                 edits.append(dict(op='bc_slice', v=0, face=f, coef=coef, idx=0, val=1.5))
+                edits.append(dict(op='bc_aug', v=0, face=f, coef=coef, how='mul', val=2.0))
+                edits.append(dict(op='bc_aug', v=0, face=f, coef=coef, how='add', val=0.5))
             edits.append(dict(op='fixedValue', v=0, face=f, val=2.5))
             edits.append(dict(op='fixedGradient', v=0, face=f, val=0.3, scale=3.0))
             edits.append(dict(op='newtonCooling', v=0, face=f, k=1.0, h=0.9, T=2.0, rev=(f % 2 == 0)))
@@ -586,7 +601,7 @@ def nontrivial(case):
     """static version of the rule (the interpreter's dynamic flag is used by the stateful engine): a BC edit and a value edit
     precede the final solve, or a share / explicit->solve / copy+edit pattern occurs"""
     ops = [o['op'] for o in case['ops']]
-    bc = any(o in ('bc_set', 'bc_slice', 'fixedValue', 'fixedGradient', 'newtonCooling', 'defaultNoFlux', 'periodic') for o in ops[:-1])
+    bc = any(o in ('bc_set', 'bc_slice', 'bc_aug', 'fixedValue', 'fixedGradient', 'newtonCooling', 'defaultNoFlux', 'periodic') for o in ops[:-1])
     val = any(o in ('val_set', 'val_slice', 'update_value') for o in ops[:-1])
     return (bc and val) or 'share' in ops[:-1] or ('explicit' in ops[:-1] and 'solve' in ops) or ('copy' in ops[:-1] and (bc or val))
 
